@@ -7,7 +7,9 @@ MODULES = ['DsdVerif.Props.C06']
 GEN_FILES = []
 THEOREMS = ['Dsd.' + t for t in [
     'Bracket.matchW_sound', 'Bracket.matchW_complete', 'Bracket.matching_unique', 'Bracket.matching_accepted',
-    'C06.rotateOnce_error_kind', 'C06.mpt_error_kind']]
+    'C06.mpt_shape', 'C06.mpt_involution_nested', 'C06.mpt_rejects_iff', 'C06.mpt_accepts_iff', 'C06.db_of_mpt',
+    'C06.strand_table_roundtrip_str', 'C06.sequence_roundtrip_str', 'C06.strand_table_roundtrip_list',
+    'C06.sequence_roundtrip_list', 'C06.rotateOnce_error_kind', 'C06.mpt_error_kind']]
 ASSUMPTIONS = [
     'make_pair_table is modelled as the linear stack matcher followed by re-indexing to loci (Model/Complex.lean); '
     'the re-indexing and the error kinds are tied to the code by the correspondence stream',
